@@ -360,6 +360,29 @@ theorem C10_no_stuck_state (o : Bool) (s : St) (h : ReachE o s) (hin : starters 
     | send => exact stuck_mk _ (.gotBlock) rfl (by simp [step])
     | sendErr => exact stuck_mk _ (.gotError) rfl (by simp [step])
 
+/-- **C10_stop_waits_for_run**: a Stop caller that switched the state leaves its wait only when the run is over — wait
+group 0, hence no core loop and no Start call holding the activation — however long that takes: there is no step
+by which it gives up earlier.  (With `C10_no_stuck_state`/`C10_stop_measure` the wait does end.) -/
+theorem C10_stop_waits_for_run (o : Bool) (s s' : St) (h : Reach o s) (hs : step s .stopWaited = some s') :
+    s.wg = 0 ∧ s.lp = .off ∧ ¬ s.sp.owner ∧ ¬ s.st.running := by
+  have hg := lc_inv o s h
+  have hwg : s.wg = 0 := by
+    unfold step at hs
+    split at hs
+    · contradiction
+    · dsimp only at hs
+      split at hs
+      · next hk => exact hk.2
+      · contradiction
+  have hnr : ¬ s.st.running := by
+    intro hr
+    have := hg.wg_eq
+    simp [hr] at this
+    omega
+  have := (not_congr hg.run_owner).mp hnr
+  simp only [not_or, LPc.alive, ne_eq, Decidable.not_not] at this
+  exact ⟨hwg, this.1, by simpa [SPc.owner, not_or] using this.2, hnr⟩
+
 /-! ### Termination measure of the shut-down -/
 
 def prodRank : PPc → Nat
